@@ -84,7 +84,7 @@ theorem check_agrees [DecidableEq α] (ord : Generated.Machines.Rust.PartialOrd 
     (input : α) :
     ofResult (Generated.Machines.CheckHigherThan.check ord (toCheck c) input) = c.check ord.le input := by
   by_cases h : ord.le input c.limit = true <;>
-    simp [Generated.Machines.CheckHigherThan.check, CheckHigherThan.check, toCheck, ofResult, ofFail, h]
+    simp [gen_risk, CheckHigherThan.check, toCheck, ofResult, ofFail, h]
 
 /-! ## Arithmetic helpers -/
 
@@ -108,31 +108,27 @@ theorem abs_agrees (x : Rat) : Generated.Machines.Decimal.abs x = x.abs := by
 theorem notional_agrees (quantity price contractSize : Rat) :
     Generated.Machines.calculate_quote_notional quantity price contractSize
       = calculateQuoteNotional noOverflow quantity price contractSize := by
-  simp [Generated.Machines.calculate_quote_notional, calculateQuoteNotional, checkedMul, noOverflow,
-    Generated.Machines.Decimal.checked_mul]
+  simp [gen_risk, calculateQuoteNotional, checkedMul, noOverflow, Generated.Machines.Decimal.checked_mul]
 
 /-- … and for every `fits`: a value the model returns is the value the generated function returns. -/
 theorem notional_agrees_when_fits (fits : Rat → Bool) (quantity price contractSize v : Rat)
     (h : calculateQuoteNotional fits quantity price contractSize = some v) :
     Generated.Machines.calculate_quote_notional quantity price contractSize = some v := by
   simp only [calculateQuoteNotional, checkedMul] at h
-  simp only [Generated.Machines.calculate_quote_notional, Generated.Machines.Decimal.checked_mul]
+  simp only [gen_risk, Generated.Machines.Decimal.checked_mul]
   split at h <;> simp_all
 
 /-- `calculate_abs_percent_difference` = the model without overflow (`None` exactly for `other = 0`). -/
 theorem apd_agrees (current other : Rat) :
     Generated.Machines.calculate_abs_percent_difference current other
       = calculateAbsPercentDifference noOverflow current other := by
-  simp [Generated.Machines.calculate_abs_percent_difference, calculateAbsPercentDifference, checkedSub,
-    checkedDiv, noOverflow, Generated.Machines.Decimal.checked_sub, Generated.Machines.Decimal.checked_div,
-    abs_agrees]
+  simp [gen_risk, calculateAbsPercentDifference, checkedSub, checkedDiv, noOverflow, Generated.Machines.Decimal.checked_sub, Generated.Machines.Decimal.checked_div, abs_agrees]
 
 theorem apd_agrees_when_fits (fits : Rat → Bool) (current other v : Rat)
     (h : calculateAbsPercentDifference fits current other = some v) :
     Generated.Machines.calculate_abs_percent_difference current other = some v := by
   simp only [calculateAbsPercentDifference, checkedSub, checkedDiv] at h
-  simp only [Generated.Machines.calculate_abs_percent_difference, Generated.Machines.Decimal.checked_sub,
-    Generated.Machines.Decimal.checked_div, abs_agrees]
+  simp only [gen_risk, Generated.Machines.Decimal.checked_sub, Generated.Machines.Decimal.checked_div, abs_agrees]
   split at h <;> simp_all
 
 /-- `calculate_delta` = the model without overflow (the model's `none` is the overflow panic). -/
@@ -140,7 +136,7 @@ theorem delta_agrees (instrumentDelta contractSize : Rat) (side : Side) (quantit
     calculateDelta noOverflow instrumentDelta contractSize side quantityInKind
       = some (Generated.Machines.calculate_delta instrumentDelta contractSize (toSide side) quantityInKind) := by
   cases side <;>
-    simp [Generated.Machines.calculate_delta, calculateDelta, checkedMul, noOverflow, toSide]
+    simp [gen_risk, calculateDelta, checkedMul, noOverflow, toSide]
 
 theorem delta_agrees_when_fits (fits : Rat → Bool) (instrumentDelta contractSize : Rat) (side : Side)
     (quantityInKind v : Rat)
@@ -149,7 +145,7 @@ theorem delta_agrees_when_fits (fits : Rat → Bool) (instrumentDelta contractSi
   simp only [calculateDelta, checkedMul] at h
   split at h <;> simp at h
   obtain ⟨_, h2⟩ := h
-  cases side <;> simp_all [Generated.Machines.calculate_delta, toSide]
+  cases side <;> simp_all [gen_risk, toSide]
 
 /-- Everything `./check C03R` re-proves against the current source, at once. -/
 theorem risk_sm_agree :
